@@ -153,6 +153,7 @@ def natOps (P : Params) (fl : Flavour) : Ops Nat Nat where
   subMod := Nat'.subMod P
   fromU64 := fun n => n
   hashToExp := natHashToExp P fl
+  hash := sha512
   codecE := natCodecE P fl
   codecX := natCodecX P fl
 
